@@ -42,6 +42,19 @@ def push [BEq κ] (lt : α → α → Bool) (s : State κ α) (k : κ) (x : α) 
 /-- `get_result`: every queue in descending order (a fresh value; the state is untouched). -/
 def getResult (s : State κ α) : List (κ × List α) := s.qs.map fun (k, q) => (k, q.reverse)
 
+/-! `heapq` primitives on the ascending-list representation, named as in the source so that the translator (T7) can
+regenerate `push` / `get_result` over them. -/
+def heapq_heappush (lt : α → α → Bool) (q : List α) (x : α) : List α := insertAsc lt x q
+
+/-- push then pop the smallest: the root leaves only if it is smaller than the new item; on an empty heap the item itself leaves. -/
+def heapq_heappushpop (lt : α → α → Bool) (q : List α) (x : α) : List α :=
+  match q with
+  | [] => []
+  | m :: rest => if lt m x then insertAsc lt x rest else m :: rest
+
+/-- the `n` largest, largest first -/
+def heapq_nlargest (_lt : α → α → Bool) (n : Nat) (q : List α) : List α := q.reverse.take n
+
 def pushAll [BEq κ] (lt : α → α → Bool) (s : State κ α) (ops : List (κ × α)) : State κ α :=
   ops.foldl (fun s (k, x) => push lt s k x) s
 
